@@ -93,7 +93,11 @@ CLAIMED = {
              "2-point rule; every coarse index read is in range.  Start-up: the instruction program of initializeSolution() refines the nested "
              "iteration spec (coarsest direct solve, then interpolate and cycle level by level), its result depends on the level right-hand "
              "sides only (no stale work-vector contents), and with two levels and no cycles equals the interpolated coarse solution; the old "
-             "loop start is shown to write nothing for two levels.  Tie: transfer correspondence + traced start-ups on the real object.",
+             "loop start is shown to write nothing for two levels.  C09c instantiates the program with the code-level models: the two-level start "
+             "vector is the FMG interpolation of a solution of the assembled coarse system, the start-up is total on admissible hierarchies "
+             "(any depth, plain and extrapolated), and the give strategy's start-up equals the take strategy's.  Tie: transfer correspondence "
+             "(with cubic oracles in r and theta on the implementation) + traced start-ups on the real object + the start-up executed inside "
+             "the model (IEEE double) against the real initializeSolution().",
         design_ref="DESIGN.md section 4, C09", note="Defect F4 (loop started one level too high) repaired by a fix: commit; discretisation-level accuracy of the start vector is not proved.",
         technique="Lean 4 proof (field_simp/ring identities; induction over the instruction program) + trace correspondence"),
     "C10": dict(
